@@ -72,6 +72,7 @@ fn main() {
         "C05" => props::c05::run(tier, seed, only.and_then(|s| s.parse().ok())),
         "C12" => props::c12::run(tier, seed, only.and_then(|s| s.parse().ok())),
         "C13" => props::c13::run(tier, seed, only),
+        "C14" => props::c14::run(tier, seed, only.and_then(|s| s.parse().ok())),
         "C15" => props::c15::run(tier, seed, only),
         "C06" => props::c06::run(tier, seed, only.and_then(|s| s.parse().ok())),
         _ => {
